@@ -77,7 +77,7 @@ func (e *BinaryOpExpr) checkWithMath(ctx *CheckCtx) error {
 	lstring := false
 	rstring := false
 	switch exp := e.Left.(type) {
-	case *BinaryOpExpr, *FunctionCallExpr, *NumberExpr, *FloatExpr, *FieldReferenceExpr:
+	case *BinaryOpExpr, *FunctionCallExpr, *NumberExpr, *FloatExpr, *FieldReferenceExpr, *FieldAccessExpr:
 		if e.Left.ReturnType() != TNUMBER {
 			if e.Left.ReturnType() == TSTR {
 				lstring = true
@@ -85,14 +85,14 @@ func (e *BinaryOpExpr) checkWithMath(ctx *CheckCtx) error {
 				return NewSyntaxError(e.Left.GetPos(), "%s operator has wrong type of left expression %s", op, exp)
 			}
 		}
-	case *StringExpr, *FieldExpr, *FieldAccessExpr:
+	case *StringExpr, *FieldExpr:
 		lstring = true
 	default:
 		return NewSyntaxError(e.Left.GetPos(), "%s operator with invalid left expression %s", op, exp)
 	}
 
 	switch exp := e.Right.(type) {
-	case *BinaryOpExpr, *FunctionCallExpr, *NumberExpr, *FloatExpr, *FieldReferenceExpr:
+	case *BinaryOpExpr, *FunctionCallExpr, *NumberExpr, *FloatExpr, *FieldReferenceExpr, *FieldAccessExpr:
 		if e.Right.ReturnType() != TNUMBER {
 			if e.Right.ReturnType() == TSTR {
 				rstring = true
@@ -100,7 +100,7 @@ func (e *BinaryOpExpr) checkWithMath(ctx *CheckCtx) error {
 				return NewSyntaxError(e.Right.GetPos(), "%s operator has wrong type of right expression %s", op, exp)
 			}
 		}
-	case *StringExpr, *FieldExpr, *FieldAccessExpr:
+	case *StringExpr, *FieldExpr:
 		rstring = true
 	default:
 		return NewSyntaxError(e.Right.GetPos(), "%s operator with invalid right expression %s", op, exp)
